@@ -77,6 +77,13 @@ def p10_accept_loop(ctx):
             if s["k"] == "assign" and s["rv"]["k"] == "agg" and s["rv"]["ak"] == "adt" and strip_generics(s["rv"]["adt"]) == "net::server::Handler":
                 hagg = (bb, b.origin_rvalue(s["rv"]))
     if hagg is None:
+        # built by a private constructor helper: look through it (interprocedural origins)
+        for bb, t in b.calls():
+            if bb in b.live_blocks() and (t.get("dest_ty") or "").startswith("net::server::Handler<") and prog.callee_body(t) is not None:
+                o = expand(prog, b.origin_call(bb), {})
+                if o[0] == "agg" and o[2] == "net::server::Handler":
+                    hagg = (bb, o)
+    if hagg is None:
         r.bad(f, "Handler literal", where(b, cbb), "no Handler is built for the accepted connection")
         return r
     hbb, ho = hagg
@@ -96,7 +103,10 @@ def p10_accept_loop(ctx):
     r.add(f, "Handler.connection wraps the accepted socket", good, where(b, hbb), origin_str(cn))
     # spawn receives a coroutine capturing that handler
     so = peel(arg_origin(b, st, 0))
-    cap_ok = so[0] == "agg" and so[1] == "coroutine" and any(origin_mentions(v, lambda x: x[0] == "agg" and x[2] == "net::server::Handler") for v in so[4].values())
+    if so[0] == "call" and prog.callee_body(b.term(so[3][1])) is not None and so[3][0] == b.path:
+        # tokio::spawn(serve(handler)): the future of a private async fn — its coroutine, built from the arguments
+        so = peel(expand(prog, so, {}))
+    cap_ok = so[0] == "agg" and so[1] == "coroutine" and any(origin_mentions(v, lambda x: (x[0] == "agg" and x[2] == "net::server::Handler") or (x[0] == "call" and x[3] == (b.path, hbb))) for v in so[4].values())
     r.add(f, "tokio::spawn(task owning the Handler)", cap_ok, where(b, sbb), origin_str(so)[:200])
     # loop continuation passes the spawn
     ok_e, err_e, _ = try_edges_awaited(b, cbb)
@@ -210,8 +220,11 @@ def p12_handler_loop(ctx):
         pass
     fair = False
     biased_first = None
-    for cb2 in fam:
-        if cb2.def_kind == "Closure" and cb2.path.startswith(b.path + "::"):
+    # the select's polling closure (of this body, or of an async helper that was inlined into it)
+    owners = [b.path] + [x + "::{closure#0}" for x in (b.rec.get("inlined") or [])]
+    cands = list(fam) + [y for x in (b.rec.get("inlined") or []) for y in prog.families.get(x, [])]
+    for cb2 in cands:
+        if cb2.def_kind == "Closure" and any(cb2.path.startswith(ow + "::") for ow in owners):
             polls = [t2 for _, t2 in cb2.calls() if is_call_to(t2, "std::future::Future::poll")]
             if polls:
                 rng = [t2 for _, t2 in cb2.calls() if (strip_generics(t2.get("callee")) or "").endswith("thread_rng_n")]
@@ -228,7 +241,7 @@ def p12_handler_loop(ctx):
     frm_ok = False
     if tf:
         fro = tf[0][2][0]
-        frm_ok = bool(origin_mentions(fro, lambda x: x[0] == "variant" and x[2] == "_%d" % kinds.index("read")))
+        frm_ok = bool(phi_mentions(b, fro, lambda x: x[0] == "variant" and x[2] == "_%d" % kinds.index("read")))
     viatry = peel_var(co)[0] == "field" and "try" in origin_str(co)
     r.add(f, "W3b: applied command = Command::try_from(frame read)? (validated before the store is touched)", bool(tf) and frm_ok, where(b, abb), origin_str(co)[:160])
     tfb = tf[0][3][1] if tf else None
@@ -269,7 +282,11 @@ def p12_handler_loop(ctx):
                             for v in ("Set", "Get", "Del"):
                                 if is_call_to(t, "net::command::%s::%s::apply" % (v.lower(), v)):
                                     called.add(v)
-                    r.add("net::command::Command::apply", "Command::%s ⇒ %s::apply" % (labs[0], labs[0]), called == {labs[0]}, where(cab, bb), "calls %s" % sorted(called))
+                    if labs[0] in ("Set", "Get", "Del"):
+                        r.add("net::command::Command::apply", "Command::%s ⇒ %s::apply" % (labs[0], labs[0]), called == {labs[0]}, where(cab, bb), "calls %s" % sorted(called))
+                    else:
+                        # a command outside the map model (PING …) must not reach the store's appliers
+                        r.add("net::command::Command::apply", "Command::%s does not run a SET/GET/DEL applier" % labs[0], not called, where(cab, bb), "calls %s" % sorted(called))
     return r
 
 
@@ -374,6 +391,11 @@ def p11_command_application(ctx):
                             for s2 in b.blocks[x]["stmts"]:
                                 if s2["k"] == "assign" and s2["rv"]["k"] == "agg" and s2["rv"].get("adt") and strip_generics(s2["rv"]["adt"]) == "net::frame::Frame":
                                     built.add(s2["rv"]["variant"])
+                                elif s2["k"] == "assign" and s2["rv"]["k"] == "use":
+                                    # a frame built before the test and chosen here (`map_or(Frame::Null, …)`)
+                                    o2 = peel(b.origin_rvalue(s2["rv"]))
+                                    if o2[0] == "agg" and o2[2] == "net::frame::Frame":
+                                        built.add(o2[3])
                         want = {"BulkString"} if labs == ["Some"] else {"Null"}
                         r.add(f, "stored %s ⇒ %s" % (labs[0], sorted(want)[0]), built == want, where(b, bb), "builds %s" % sorted(built))
         else:
